@@ -82,7 +82,8 @@ Inductive sop :=
   | OAddPeriod (ppk mpk pid spk : Z)
   | ODelPeriod (ppk : Z)
   | OAddAset (apk ppk : Z)
-  | ORename (spk dir : Z).                         (* edit stream: the directory changes only while the stream has no media *)
+  | ORename (spk dir : Z)                          (* edit stream: the directory changes only while the stream has no media *)
+  | ODelAset (apk : Z).                            (* edit multi-period stream: a track is dropped from a Period *)
 
 Definition fresh (x : Z) (l : list Z) : bool := negb (zmem x l).
 
@@ -134,6 +135,9 @@ Definition sstep (s : store) (o : sop) : store :=
   | ORename spk dir =>
       if existsb (fun f => f_stream f =? spk) (files s) || zmem dir (map snd (streams s)) then s
       else set_streams s (map (fun x => if fst x =? spk then (spk, dir) else x) (streams s))
+  | ODelAset apk =>
+      {| streams := streams s; files := files s; blobs := blobs s; keys := keys s; links := links s; mpss := mpss s;
+         periods := periods s; asets := filter (fun a => negb (fst a =? apk)) (asets s) |}
   end.
 
 Definition srun (ops : list sop) : store := fold_left sstep ops sempty.
